@@ -101,8 +101,14 @@ func (d *VDB) NewTransaction(ctx context.Context, _ bool) (database.Transaction,
 		for _, k := range d.FaultKeys {
 			menu = append(menu, "failset:"+k)
 		}
-		if a := d.W.Gate(nil, "db.tx", menu...); strings.HasPrefix(a, "failset:") {
+		menu = append(menu, "failbegin") // the store cannot even begin the transaction
+		a := d.W.Gate(nil, "db.tx", menu...)
+		if strings.HasPrefix(a, "failset:") {
 			t.failKey = strings.TrimPrefix(a, "failset:")
+		}
+		if a == "failbegin" {
+			d.W.Log("db", "txfail", -1, "")
+			return nil, ctx, errInjected
 		}
 	}
 	return t, database.ContextWithTransaction(ctx, t), nil
